@@ -73,7 +73,7 @@ def rule_c06_shapley(prog: Program, col: Collector) -> None:
               necessity="s!(n-s-1)! is the number of orderings in which a fixed set of size s precedes the player; s+1 or n-s shifts every weight")
     cnt = rets[0].value[2][2] if is_call_to(rets[0].value, "numpy.fromiter") and len(rets[0].value[2]) > 2 else None
     if cnt is not None:
-        col.check(cnt == npar, cref.where(), cref.short, "np.fromiter count equals n", construct="coef-count", necessity="")
+        col.check(cnt == npar, cref.where(), cref.short, "np.fromiter count equals n", construct="coef-count", necessity="np.fromiter with a count other than n raises or truncates the weight vector")
     else:
         col.ok(cref.where(), cref.short, "no explicit element count")
 
@@ -251,7 +251,7 @@ def rule_c06_shapley(prog: Program, col: Collector) -> None:
             (cd[0][0] == "cmp" and cd[0][1] == "==" and cd[0][3] == ("const", 0) and cd[0][2][0] == "attr" and cd[0][2][2] == "id" and cd[0][2][1] in inter) or
             (cd[0][0] == "un" and cd[0][1] == "not" and cd[0][2][0] == "attr" and cd[0][2][2] == "id" and cd[0][2][1] in inter))
     col.check(okx, xref.where(), xref.short, "exclude_coalition keeps exactly the coalitions disjoint from `exclude`", construct="exclude",
-              necessity="", rule="S6")
+              necessity="the Shapley sum ranges over the coalitions that do not contain the player", rule="S6")
 
 
 def rule_c05_exploitability(prog: Program, col: Collector) -> None:
@@ -266,7 +266,7 @@ def rule_c05_exploitability(prog: Program, col: Collector) -> None:
     ip = init.positional_params()
     st = {e.attr: e for e in ift.of_kind("store") if e.obj == SELF}
     okst = "_game" in st and st["_game"].value == ("param", ip[1]) and "player" in st and st["player"].value == ("param", ip[2])
-    col.check(okst, init.where(), init.short, "the max-gain game remembers its game and its player", construct="mgg-init", necessity="")
+    col.check(okst, init.where(), init.short, "the max-gain game remembers its game and its player", construct="mgg-init", necessity="every accessor of the max-gain game reads self._game and self.player: storing anything else evaluates another player's game")
     mask_t = st.get("_player_mask")
     okm = False
     if mask_t is not None:
